@@ -13,6 +13,7 @@ class C07(SimCheck):
         "journals) under a chooser-decided schedule of application sends, frame deliveries, back-pressure, "
         "hook suspensions, connect refusals and up to 4 (quick) / 10 (thorough) connection breaks "
         "(EOF / ConnectionResetError / BrokenPipeError / TimeoutError per end), followed by a fault-free settle "
+        "1 run in 6 stalls application callbacks for 1.5-8 heartbeat intervals of simulated time (the hook returns by a timer, other tasks and the peer act underneath); "
         "phase in virtual time; non-trivial = at least one fault fired or >= 3 chooser actions; distinct = "
         "distinct digest of the run's (event kind, actor) sequence"
     )
